@@ -261,9 +261,12 @@ def forms(r, c):
     # words after the -c string are $0, $1 … of the inner command, whatever they look like
     cl = lambda: "-" + "".join(r.pick(LETTERS) for _ in range(r.randint(1, 3)))  # noqa: E731
     for lab, t in [("sh -c … -CLUSTER", "sh -c " + sq(cs) + " " + cl()), ("bash -c … _ -CLUSTER", "bash -c " + sq(cs) + " _ " + cl() + " " + cl()), ("sh -c … --long", "sh -c " + sq(cs) + " --" + r.pick(["norc", "posix", "login", "verbose", "noexec", "dry-run"])),
-                   ("env sh -c … -CLUSTER", "env A=1 sh -c " + sq(cs) + " " + cl()), ("xargs … -CLUSTER", "echo a | xargs " + cs + " " + cl()), ("find -exec … -CLUSTER", "find . -maxdepth 0 -exec " + cs + " " + cl() + " \\;"),
-                   ("env … -CLUSTER", "env " + cs + " " + cl()), ("timeout … -CLUSTER", "timeout 5 " + cs + " " + cl()), ("bash -CLUSTERc", "bash " + cl() + "c " + sq(cs))]:
+                   ("env sh -c … -CLUSTER", "env A=1 sh -c " + sq(cs) + " " + cl()), ("bash -CLUSTERc", "bash " + cl() + "c " + sq(cs))]:
         yield lab, t, False, True, None
+    # a cluster appended after the inner command belongs to the inner command: the reference is c + [cluster]
+    for lab, fmt in [("xargs … -CLUSTER", "echo a | xargs {cs} {k}"), ("find -exec … -CLUSTER", "find . -maxdepth 0 -exec {cs} {k} \\;"), ("env … -CLUSTER", "env {cs} {k}"), ("timeout … -CLUSTER", "timeout 5 {cs} {k}")]:
+        k1 = cl()
+        yield lab, fmt.format(cs=cs, k=k1), False, True, "inner+=" + k1
     nojail = [
         ("env -i", "env -i " + cs), ("fd -x", "fd -x " + cs), ("fd pat -X", "fd -e py -X " + cs), ("uv run", "uv run " + cs), ("uv run --with", "uv run --with x " + cs), ("arch", "arch -arm64 " + cs), ("arch -e", "arch -e A=1 " + cs),
         ("caffeinate", "caffeinate -i " + cs), ("caffeinate -t", "caffeinate -t 10 " + cs), ("script", "script -q /dev/null " + cs), ("tar --to-command", "tar -xf a.tar --to-command=" + sq(cs)), ("tar --to-command sep", "tar -xf a.tar --to-command " + sq(cs)),
@@ -365,6 +368,9 @@ def search(ctx):
             stats["verdict:" + dw.action] += 1
             bad = None
             dc_local = dc
+            if ftag and ftag.startswith("inner+="):
+                dc = analyze(bash_join(c + [ftag[len("inner+="):]]), cfg, Path(CWD))
+                ftag = None
             if lab.split(" ")[0] in ("docker", "podman", "kubectl"):
                 # inside a container the inner command's *local-path* checks do not apply (property C13): the reference is
                 # the inner command judged in remote mode
